@@ -1,6 +1,7 @@
 package txmgr
 
 import (
+	"bytes"
 	"encoding/binary"
 	"fmt"
 	"sort"
@@ -553,8 +554,23 @@ func (s *UtxoStore) deleteUnminedInputs(tx mwdb.DBTransaction, rec *TxRecord) er
 	for _, input := range rec.MsgTx.TxIn {
 		prevOut := &input.PreviousOutPoint
 		k := canonicalOutPoint(&prevOut.Hash, prevOut.Index)
-		if len(existsRawUnminedInput(nsUnminedInputs, k)) > 0 {
+		spenders := existsRawUnminedInput(nsUnminedInputs, k)
+		if len(spenders) == 0 {
+			continue
+		}
+		// several pending transactions may spend the same output: drop only this one
+		remaining := make([]byte, 0, len(spenders))
+		for off := 0; off+wire.HashSize <= len(spenders); off += wire.HashSize {
+			if !bytes.Equal(spenders[off:off+wire.HashSize], rec.Hash[:]) {
+				remaining = append(remaining, spenders[off:off+wire.HashSize]...)
+			}
+		}
+		if len(remaining) == 0 {
 			if err := deleteRawUnminedInput(nsUnminedInputs, k); err != nil {
+				return err
+			}
+		} else if len(remaining) != len(spenders) {
+			if err := nsUnminedInputs.Put(k, remaining); err != nil {
 				return err
 			}
 		}
